@@ -1,4 +1,5 @@
 mod acts;
+mod c19;
 mod common;
 mod config_grid;
 mod grids;
@@ -74,6 +75,7 @@ fn main() {
         "C13" => treasury_grid::run(thorough),
         "C14" => config_grid::run(thorough),
         "C18" => migrate_grid::run(thorough),
+        "C19" => c19::run(thorough),
         "C04" => grids::run_c04(thorough),
         "C09" => grids::run_c09(thorough),
         _ => {
@@ -89,5 +91,9 @@ fn scenarios_for(prop: &str) -> Vec<scen::StakingScenario> {
     v.extend(ledger::scenarios(prop, true));
     v.extend(probe_checks::scenarios(prop, false));
     v.extend(probe_checks::scenarios(prop, true));
+    if prop == "C19" {
+        v.extend(c19::plans(false).into_iter().map(|p| p.sc));
+        v.extend(c19::plans(true).into_iter().map(|p| p.sc));
+    }
     v
 }
